@@ -46,6 +46,11 @@ type reqCall struct {
 	retStep   int
 	pad       int    // bytes of padding in the request's payload
 	qualNS    string // non-empty: the request's start element is qualified with this namespace
+	// idMode: 0 the application chooses the id; 1 it leaves the id out; 2 (SendIQ, SendMessage, SendPresence) the start
+	// element carries an id attribute that is empty. The library then chooses an id, which the scripted peer learns from
+	// the wire (the payload's n attribute names the call) and stores in id.
+	idMode int
+	nAttr  string
 	// when the call's context ended or will end (its deadline, or the instant of the explicit cancel if that came first)
 	ctxEndAt time.Duration
 }
@@ -115,10 +120,25 @@ func doReq(ctx context.Context, s *xmpp.Session, c *reqCall) {
 		// a payload that takes several writes on the connection
 		pad = xmlstream.Token(xml.CharData(strings.Repeat("p", c.pad)))
 	}
+	c.nAttr = c.id
 	q := xmlstream.Wrap(pad, xml.StartElement{Name: xml.Name{Space: "urn:verif", Local: "q"}, Attr: []xml.Attr{{Name: xml.Name{Local: "n"}, Value: c.id}}})
 	iq := stanza.IQ{ID: c.id, Type: stanza.GetIQ}
 	if len(c.id)%2 == 0 {
 		iq.Type = stanza.SetIQ
+	}
+	nid := c.id
+	if c.idMode != 0 {
+		iq.ID, nid = "", ""
+	}
+	emptyID := func(r xml.TokenReader) xml.TokenReader {
+		// the same element with an id attribute that is present and empty
+		if c.idMode != 2 {
+			return r
+		}
+		tok, _ := r.Token()
+		st := tok.(xml.StartElement)
+		st.Attr = append([]xml.Attr{{Name: xml.Name{Local: "id"}, Value: ""}}, st.Attr...)
+		return xmlstream.MultiReader(xmlstream.Token(st), r)
 	}
 	if c.qualNS != "" {
 		// a request whose start element names the stream's namespace (an IQ rebuilt from a received one, for instance)
@@ -128,13 +148,13 @@ func doReq(ctx context.Context, s *xmpp.Session, c *reqCall) {
 	var err error
 	switch c.kind {
 	case "SendIQ":
-		resp, err = s.SendIQ(ctx, iq.Wrap(q))
+		resp, err = s.SendIQ(ctx, emptyID(iq.Wrap(q)))
 	case "SendIQElement":
 		resp, err = s.SendIQElement(ctx, q, iq)
 	case "EncodeIQ":
-		resp, err = s.EncodeIQ(ctx, vIQ{IQ: iq, Q: vPayload{N: c.id}})
+		resp, err = s.EncodeIQ(ctx, vIQ{IQ: iq, Q: vPayload{N: c.nAttr}})
 	case "EncodeIQElement":
-		resp, err = s.EncodeIQElement(ctx, vPayload{N: c.id}, iq)
+		resp, err = s.EncodeIQElement(ctx, vPayload{N: c.nAttr}, iq)
 	case "UnmarshalIQ", "UnmarshalIQElement":
 		var v vResp
 		if c.kind == "UnmarshalIQ" {
@@ -185,9 +205,9 @@ func doReq(ctx context.Context, s *xmpp.Session, c *reqCall) {
 		c.err = err
 		return
 	case "SendMessage":
-		resp, err = s.SendMessage(ctx, stanza.Message{ID: c.id, Type: stanza.ChatMessage}.Wrap(q))
+		resp, err = s.SendMessage(ctx, emptyID(stanza.Message{ID: nid, Type: stanza.ChatMessage}.Wrap(q)))
 	case "SendPresence":
-		resp, err = s.SendPresence(ctx, stanza.Presence{ID: c.id}.Wrap(q))
+		resp, err = s.SendPresence(ctx, emptyID(stanza.Presence{ID: nid}.Wrap(q)))
 	}
 	c.err = err
 	if err == nil && resp != nil {
@@ -270,6 +290,10 @@ func runC06(rc *RC) {
 			}
 			if c.stanza == "iq" && ch.Chance("workload", 1, 3) {
 				c.qualNS = e.NS
+			}
+			if ch.Chance("workload", 1, 5) {
+				c.idMode = 1 + ch.Int("workload", 2)
+				rc.Fire("library-chosen-id")
 			}
 			if wf {
 				// the write-fault configuration: nobody gives up for three minutes, so that a serve loop that waits for a
@@ -379,6 +403,7 @@ func runC06(rc *RC) {
 	peer := rc.Spawn("peer", func() {
 		d := xml.NewDecoder(e.Peer)
 		depth := 0
+		curID := ""
 		for {
 			tok, err := d.Token()
 			if err != nil {
@@ -387,11 +412,21 @@ func runC06(rc *RC) {
 			switch t := tok.(type) {
 			case xml.StartElement:
 				depth++
+				if depth == 3 && t.Name.Local == "q" {
+					// a request that left the choice of its id to the library: from now on the call is known by the id on the wire
+					n := (Elem{Start: t}).Attr("n")
+					for _, c := range calls {
+						if c.idMode != 0 && c.nAttr == n && c.id == n {
+							c.id = curID
+						}
+					}
+				}
 				if depth != 2 {
 					continue
 				}
 				el := Elem{Start: t}
 				id, name := el.Attr("id"), t.Name.Local
+				curID = id
 				typ := "result"
 				if ch.Chance("peer", 1, 3) || name != "iq" {
 					typ = "error"
@@ -496,6 +531,9 @@ func runC06(rc *RC) {
 			continue
 		}
 		// a reply was delivered
+		if c.idMode != 0 && c.gotID == c.nAttr && (strings.HasPrefix(c.kind, "Unmarshal") || strings.HasPrefix(c.kind, "Iter")) {
+			c.gotID = c.id // these helpers hand out no id: doReq filled in the call's name at that moment
+		}
 		if c.gotName != c.stanza || c.gotID != c.id || (c.gotType != "result" && c.gotType != "error") {
 			rc.Failf("C06.c1", "wrong-reply:"+c.kind, "%s id=%s received <%s id=%q type=%q> as its reply", c.kind, c.id, c.gotName, c.gotID, c.gotType)
 		}
